@@ -1,9 +1,18 @@
 (* C03 — state serialization is complete: save + load is invisible.
-   Proved over the model of Marshal followed by Unmarshal (Irc/Apply.v reload): the rebuilt nick index is the
-   old one, every session whose timestamps are positive is reproduced field by field, channels, nickname holds,
-   lastProcessed and every configuration field except WhitelistedOrigins are unchanged, and the consistency
-   invariant is preserved.  Open finding (known_findings.txt, sig c03:field:G.wo): WhitelistedOrigins is not part
-   of snapshot.proto and is lost (C03_refuted_whitelisted_origins); no small repair exists here (protoc missing). *)
+   Proved over the model of Marshal followed by Unmarshal (Irc/Apply.v reload), for every state reached by a
+   well-formed history with positive timestamps (IrcProofs/Reload.v reachable):
+   - every session is reproduced field by field, the nick index is rebuilt to the same index, channels, nickname
+     holds, network name, lastProcessed and the whole configuration — WhitelistedOrigins included, which is part of
+     the snapshot since the repair of snapshot.proto — are unchanged, the consistency invariant is preserved;
+   - the only component that save + load changes is the representation of the list of services links
+     (sv_serverSessions): it comes back sorted, duplicate-free and without the ids of links that have quit (D13: the
+     implementation never removes an id from i.serverSessions); reload sv = normal sv, and reload sv = sv when the
+     list is sorted and has no stale id;
+   - the state machine cannot see that difference: for every continuation both instances produce the same outcomes
+     and the same messages, with the same recipients up to stale ids (literally the same when there is none); under
+     raft's id discipline a stale id never names a session again, so every live session gets exactly the same
+     output; save + load commutes with every continuation.
+   No open finding. *)
 From stdpp Require Import gmap.
 From Coq Require Import Strings.String List ZArith.
 From RV Require Import Irc.Str Irc.State Irc.Cmds Irc.Apply.
@@ -28,9 +37,14 @@ Theorem C03_invariant_preserved : forall sv, EInv sv -> EInv (reload sv).
 Proof. exact reload_EInv. Qed.
 Print Assumptions C03_invariant_preserved.
 
-Theorem C03_refuted_whitelisted_origins : forall sv, g_whitelistedOrigins (sv_config (reload sv)) = ∅.
-Proof. exact reload_drops_whitelisted_origins. Qed.
-Print Assumptions C03_refuted_whitelisted_origins.
+Theorem C03_whitelisted_origins_kept : forall sv,
+  g_whitelistedOrigins (sv_config (reload sv)) = g_whitelistedOrigins (sv_config sv).
+Proof. exact reload_keeps_whitelisted_origins. Qed.
+Print Assumptions C03_whitelisted_origins_kept.
+
+Theorem C03_config_kept : forall sv, sv_config (reload sv) = sv_config sv.
+Proof. exact reload_config. Qed.
+Print Assumptions C03_config_kept.
 
 (* (1) the side conditions of C03_session_exact hold of every session of every reachable state *)
 Theorem C03_reachable_sessions_exact : forall e net sv, reachable e net sv ->
@@ -49,10 +63,23 @@ Theorem C03_raft_timestamps_suffice : forall es hi,
 Proof. intros es hi. exact (history_ids_ts_pos es hi). Qed.
 Print Assumptions C03_raft_timestamps_suffice.
 
-(* (2) save + load is the identity up to two normalisations *)
+(* (2) save + load is the identity up to the representation of the list of services links *)
 Theorem C03_fixpoint : forall e net sv, reachable e net sv -> reload sv = normal sv.
 Proof. exact reload_fixpoint. Qed.
 Print Assumptions C03_fixpoint.
+
+Theorem C03_rest_unchanged : forall e net sv, reachable e net sv ->
+  sv_sessions (reload sv) = sv_sessions sv /\ sv_nicks (reload sv) = sv_nicks sv /\ sv_channels (reload sv) = sv_channels sv /\
+  sv_svsholds (reload sv) = sv_svsholds sv /\ sv_netname (reload sv) = sv_netname sv /\
+  sv_lastProcessed (reload sv) = sv_lastProcessed sv /\ sv_config (reload sv) = sv_config sv.
+Proof. exact reload_rest_identity. Qed.
+Print Assumptions C03_rest_unchanged.
+
+Theorem C03_identity : forall e net sv, reachable e net sv ->
+  StronglySorted N.lt (sv_serverSessions sv) -> (forall x, In x (sv_serverSessions sv) -> is_server_id sv x = true) ->
+  reload sv = sv.
+Proof. exact reload_identity. Qed.
+Print Assumptions C03_identity.
 
 Theorem C03_idempotent : forall e net sv, reachable e net sv -> reload (reload sv) = reload sv.
 Proof. exact reload_idempotent. Qed.
